@@ -60,7 +60,7 @@ def run(tier):
     core.build()
     seed = core.seed()
     cases = build_corpus(tier, seed)
-    return c01.run_flow("C12", cases, (24 if tier == "quick" else 60, 8), ("rc", "reply"), tier, seed, depth=2, rich=True, scope=scope,
+    return c01.run_flow("C12", cases, (24 if tier == "quick" else 60, 8), ("rc", "reply"), tier, seed, depth=2, rich=True, scope=scope, vm_budget=150 if tier == "quick" else 1500,
                         rule="within-word alternation over subsets of the prefix-chain universe {a,ab,abc,abcd,b,bc,abd} (all 127 in thorough, all of size <= 2 plus "
                              "a seeded sample in quick) x prefix literal {--opt=, -o}, followed by a further word; every value and every prefix of it as the typed "
                              "word, every value as an earlier word; thorough adds random value sets over {x,y,z};")
